@@ -29,9 +29,6 @@ META = {
                  "functions; trace validation (SpatialTrace) of seeded world x query runs on the real worlds",
 }
 
-FACE_KEY = "face-cell-covering-gets-no-token"
-
-
 def cfg(init, faces, depth, maxcov, invariants):
     return ("INIT %s\nNEXT Next\nCONSTANTS\n  Faces = {%s}\n  Depth = %d\n  MaxCov = %d\n"
             "INVARIANTS %s\nCHECK_DEADLOCK FALSE\n" % (init, ", ".join(map(str, faces)), depth, maxcov,
@@ -187,6 +184,24 @@ def end_to_end(ctx, binary):
         if 1 not in {b["line"] for b in r.lines.get("BAD", [])}:
             raise Inconclusive("binding self-test failed: TLC accepted a corrupted FindFeatures result")
         ctx.extra_cov["binding_selftest_trace"] = "corrupted result rejected by TLC"
+
+
+def replay(ctx, obj):
+    """Re-execute the case of a replay file on the current tree (the adapter judges it)."""
+    rep = obj.get("replay") or {}
+    binary = ctx.go_build("vh-spatial")
+    if "owner" in rep:
+        adapter, case = rep["owner"]["adapter"], rep["owner"]["case"]
+    else:
+        adapter, case = "tokens", rep.get("case")
+    if not case:
+        raise Inconclusive("replay file has no case")
+    v = ctx.run_cases(binary, adapter, [dict(case)], timeout_ms=180000, name="replay")[0]
+    ctx.evaluations += 1
+    keys = {v.get("key")} | {e.get("key") for e in ((v.get("obs") or {}).get("events") or []) if e.get("go_bad")}
+    if obj.get("key") in keys:
+        ctx.fail(obj["key"], obj.get("what", ""), rep)
+    return ctx.finish("model_checking", rule="replay of one recorded case", exhaustive=False)
 
 
 def run(ctx):
